@@ -12,7 +12,9 @@ use std::process::{Command, Stdio};
 use std::time::{Duration, Instant};
 
 pub const DEFAULT_SEED: u64 = 20_261_001;
-const VERIF: &str = "/verif";
+fn verif_root() -> String {
+    std::env::var("VERIF_ROOT").unwrap_or_else(|_| "/verif".to_string())
+}
 
 pub struct CheckArgs {
     pub prop: String,
@@ -24,7 +26,7 @@ pub struct CheckArgs {
 }
 
 fn tmp_dir() -> String {
-    let d = format!("{}/sim/target/tmp", VERIF);
+    let d = format!("{}/sim/target/tmp", verif_root());
     let _ = std::fs::create_dir_all(&d);
     d
 }
@@ -291,9 +293,9 @@ pub fn run_check(a: &CheckArgs) -> i32 {
 
     // ---- minimise and persist the first unknown violation
     let mut replay_paths: Vec<String> = Vec::new();
-    let _ = std::fs::create_dir_all(format!("{}/replays", VERIF));
+    let _ = std::fs::create_dir_all(format!("{}/replays", verif_root()));
     if let Some(first) = unknown.first() {
-        let path = format!("{}/replays/{}-{}-{}.json", VERIF, prop, a.seed, first.u("index"));
+        let path = format!("{}/replays/{}-{}-{}.json", verif_root(), prop, a.seed, first.u("index"));
         // an un-minimised but strict replay file first, so that a timeout never loses it
         let _ = std::fs::write(&path, first.pretty());
         let min_budget = Duration::from_secs(if a.thorough { 60 } else { 20 });
@@ -377,8 +379,8 @@ pub fn run_check(a: &CheckArgs) -> i32 {
         )
         .set("wall_s", J::Num((wall * 100.0).round() / 100.0))
         .set("violations", J::Int(unknown.len() as i64));
-    let _ = std::fs::create_dir_all(format!("{}/evidence", VERIF));
-    let epath = format!("{}/evidence/{}.json", VERIF, prop);
+    let _ = std::fs::create_dir_all(format!("{}/evidence", verif_root()));
+    let epath = format!("{}/evidence/{}.json", verif_root(), prop);
     if let Err(e) = std::fs::write(&epath, evidence.pretty()) {
         eprintln!("cannot write {}: {}", epath, e);
         return 2;
